@@ -3,9 +3,9 @@ CONSTANTS
   MaxV = 3
   MaxTurnout = 4
   PevChoices <- Pev_quick
-  AllowZeroFinal = FALSE
   Export = TRUE
   IntTruncation = FALSE
+  MonotoneOnRescaled = FALSE
   MaxDist = 5
 CONSTRAINT ExportDone
 INVARIANT Convex
